@@ -48,10 +48,10 @@ def configs(tier):
     for c in cs:
         if tier == "quick":
             c["depth"] = 3 if c["engine"] == "joblib" else 2
-            c["max_states"] = 400 if c["engine"] == "joblib" else 60
+            c["max_states"] = 200 if c["engine"] == "joblib" else 40
         else:
-            c["depth"] = 8 if c["engine"] == "joblib" else 4
-            c["max_states"] = 6000 if c["engine"] == "joblib" else 500
+            c["depth"] = 8 if c["engine"] == "joblib" else 3
+            c["max_states"] = 1500 if c["engine"] == "joblib" else 150
     return cs
 
 
@@ -84,6 +84,11 @@ def alphabet(tier, expanded, extent_a):
     for x in sorted(extent_a)[:2 if tier == "quick" else 3]:
         ev.append(["drop", x])
     ev.append(["new_session"])
+    # a second, long-lived Harvester on the same data name (sessions
+    # alternate, they do not overlap)
+    for r in range(min(nreg, 3)):
+        ev.append(["hc2", r, 0, None, cs[0]])
+        ev.append(["hc2", r, 1, True, cs[0]])
     return ev
 
 
@@ -127,6 +132,9 @@ class World:
         self.path = os.path.join(d, cfg["name"])
         self.model = Model()
         self.h = self.new_harvester()
+        self.h2 = self.new_harvester()
+        self.mem2 = None  # reference model of the second harvester's memory
+        self.last = "h"
 
     def new_harvester(self, version=0):
         import xyzpy as xyz
@@ -150,6 +158,38 @@ class World:
         m = self.model
         kind = ev[0]
         vio = []
+        self.last = "h2" if kind == "hc2" else "h"
+        if kind == "hc2":
+            _, r, ver, pol, c = ev
+            ra, rb = REGIONS[r]
+            pts = list(itertools.product(ra, rb))
+            cc = c[0] if c else None
+            new = self.new_cells(pts, ver, cc)
+            mem0 = dict(m.disk) if m.disk is not None else self.mem2
+            try:
+                merged = Model.merge(mem0, new, pol)
+                want_raise = False
+            except ValueError:
+                merged, want_raise = None, True
+            self.h2.runner.fn = self.fs[ver]
+            combos = {"a": ra, "b": rb}
+            if cc is not None:
+                combos["c"] = [cc]
+            try:
+                self.h2.harvest_combos(combos, overwrite=pol, verbosity=0)
+                raised = None
+            except Exception as e:
+                raised = e
+            if want_raise and raised is None:
+                vio.append(("conflict-merged", "conflicting data under the "
+                            "default policy did not raise"))
+            if (not want_raise) and raised is not None:
+                vio.append(("raised:" + type(raised).__name__,
+                            "%r raised %r" % (ev, raised)))
+            self.mem2 = mem0 if (want_raise or raised is not None) else merged
+            if not want_raise and raised is None:
+                m.disk = dict(merged)
+            return vio
         if kind in ("hc", "hcases", "add_ds"):
             if kind == "hc":
                 _, r, ver, pol, sync, c = ev
@@ -297,20 +337,28 @@ class World:
         if disk != "?" and disk != m.disk:
             vio.append(("disk-vs-model", self.explain(disk, m.disk, "disk")))
         # memory, through the public property (a fresh session loads lazily)
+        actor = self.h2 if self.last == "h2" else self.h
         try:
-            fd = self.h.full_ds
+            fd = actor.full_ds
             mem = None if fd is None else cmp.ds_to_dict(fd)
         except Exception as e:
             vio.append(("memory-unreadable", "full_ds raised %r" % e))
             mem = "?"
-        want_mem = m.mem if m.mem is not None else m.disk
-        if m.mem is None and m.disk is not None:
-            m.mem = dict(m.disk)
+        if self.last == "h2":
+            want_mem = self.mem2 if self.mem2 is not None else m.disk
+            if self.mem2 is None and m.disk is not None:
+                self.mem2 = dict(m.disk)
+        else:
+            want_mem = m.mem if m.mem is not None else m.disk
+            if m.mem is None and m.disk is not None:
+                m.mem = dict(m.disk)
         if mem != "?" and mem != want_mem:
             vio.append(("memory-vs-model", self.explain(mem, want_mem, "memory")))
         key = core.jhash([sorted(map(repr, (m.disk or {}).items())),
                           None if m.mem is None else
                           sorted(map(repr, m.mem.items())),
+                          None if self.mem2 is None else
+                          sorted(map(repr, self.mem2.items())),
                           m.disk is None, m.expanded])
         return vio, key
 
